@@ -109,11 +109,11 @@ func runE3(prop, tier string, seed uint64) int {
 	level := "exploration"
 	switch {
 	case prop == "C07" && tier == "quick":
-		seededN, maxWall = 2400, 35*time.Second
+		seededN, maxWall = 2400, 90*time.Second // sized by count (see check.go): the wall limit is a safety net
 	case prop == "C07":
 		seededN, maxWall = 400000, 10*time.Minute
 	case prop == "C19" && tier == "quick":
-		seededN, maxWall = 1200, 30*time.Second
+		seededN, maxWall = 1200, 90*time.Second
 	default:
 		seededN, maxWall = 300000, 10*time.Minute
 	}
